@@ -244,7 +244,7 @@ def depth_cases(thorough: bool) -> list[tuple[str, str]]:
 				out.append(('both', f(d) + '\n'))
 	else:
 		for kind in ('paren', 'list', 'minus', 'tuple'):
-			for d in (10, 100, 250, 300, 600):
+			for d in ((10, 100, 250, 300, 600) if kind == 'paren' else (100, 250, 300)):
 				out.append(('in-memory', DEPTH_KINDS[kind](d) + '\n'))
 			out.append(('on-disk', DEPTH_KINDS[kind](300) + '\n'))
 		for kind in ('not', 'index'):
